@@ -322,6 +322,8 @@ func runC01(ctx *Ctx) {
 		c := genPager(r, newPageGen(r))
 		if r.Chance(30) {
 			c = sparsePager(r)
+		} else if r.Chance(15) {
+			c = casefoldPager(r)
 		}
 		page, err := nurl.Parse(c.PageURL)
 		if err != nil {
